@@ -16,5 +16,5 @@ CONSTANTS
   RelevantSignersOnly = TRUE
 SPECIFICATION Spec
 VIEW View
-INVARIANTS W_NeverEarned W_NeverRevAcc W_NeverRevOnly W_NeverFailClosedW W_NeverMissing W_NeverRemoved W_NeverReappear W_NeverMarkerKept W_NeverTombUsed
+INVARIANTS W_NeverMarkerKept
 CHECK_DEADLOCK FALSE
